@@ -13,6 +13,9 @@ pub mod dispatch;
 pub mod restart;
 pub mod snapfile;
 pub mod smutil;
+pub mod auth;
+pub mod console;
+pub mod node;
 
 pub fn make(name: &str) -> Option<Box<dyn Suite>> {
     match name {
@@ -24,6 +27,8 @@ pub fn make(name: &str) -> Option<Box<dyn Suite>> {
         "dispatch" => Some(Box::new(dispatch::Dispatch::new())),
         "restart" => Some(Box::new(restart::Restart::new())),
         "snapfile" => Some(Box::new(snapfile::SnapFile::new())),
+        "auth" => Some(Box::new(auth::Auth::new())),
+        "console" => Some(Box::new(console::Console::new())),
         _ => None,
     }
 }
